@@ -16,6 +16,8 @@ type Pop = Vec<Ind>;
 
 #[derive(Clone, Debug, PartialEq, Eq, Hash)]
 pub enum Op {
+    /// like Push, but the population's vector has plenty of spare capacity (as after shrinking edits)
+    PushRoomy(u8, u8),
     Push(u8, u8), // size, objective pattern
     Pop,
     TryPop,
@@ -91,7 +93,7 @@ impl Model {
         use Op::*;
         let h = self.s.len();
         Expect::Exact(match *op {
-            Push(k, pat) => {
+            Push(k, pat) | PushRoomy(k, pat) => {
                 let mut p = vec![];
                 for i in 0..k as usize {
                     p.push((self.next_tag, PATTERNS[pat as usize][i]));
@@ -143,7 +145,10 @@ impl Model {
                             self.s[0].push((t, 1));
                         }
                         1 => self.s[0].clear(),
-                        _ => self.s[0].reverse(),
+                        2 => self.s[0].reverse(),
+                        _ => {
+                            self.s[0].pop();
+                        }
                     }
                     R::Pop(self.s[0].clone())
                 }
@@ -191,8 +196,8 @@ fn apply_impl(st: &mut State<'static, TagP>, op: &Op, next_tag: &mut u32) -> R {
         Err(_) => R::Err,
     };
     match *op {
-        Push(k, pat) => {
-            let mut p = vec![];
+        Push(k, pat) | PushRoomy(k, pat) => {
+            let mut p = if matches!(op, PushRoomy(..)) { Vec::with_capacity(4 * k as usize + 8) } else { vec![] };
             for i in 0..k as usize {
                 p.push(mk(&(*next_tag, PATTERNS[pat as usize][i])));
                 *next_tag += 1;
@@ -257,7 +262,10 @@ fn edit(p: &mut Vec<Individual<TagP>>, e: u8, next_tag: &mut u32) {
             *next_tag += 1;
         }
         1 => p.clear(),
-        _ => p.reverse(),
+        2 => p.reverse(),
+        _ => {
+            p.pop();
+        }
     }
 }
 
@@ -489,10 +497,13 @@ impl System for Stack {
                         continue;
                     }
                     v.push(Push(k, pat));
+                    if k >= 2 && pat <= 1 {
+                        v.push(PushRoomy(k, pat));
+                    }
                 }
             }
         }
-        for e in 0..3u8 {
+        for e in 0..4u8 {
             if e == 0 && h > 0 && key[0].len() >= self.max_s {
                 continue;
             }
@@ -530,8 +541,94 @@ impl System for Stack {
     }
 }
 
+/// The population stack is ordinary scoped state: inside an inner scope that holds a stack of its own the
+/// accessors work on that stack and leave the outer one alone; without one they reach the outer stack.
+/// `ops`: 0 push [tag], 1 try_pop, 2 len, 3 try_peek(0), 4 current_mut().push, 5 rotate(1)
+fn check_scoped_stack(own: bool, ops: &[u8]) -> Option<(String, String)> {
+    let mut st: State<'static, TagP> = State::new();
+    st.insert(Populations::<TagP>::new());
+    st.populations_mut().push(vec![mk(&(900, 0))]);
+    let mut outer_model: Vec<Pop> = vec![vec![(900, 0)]];
+    let mut inner_model: Vec<Pop> = vec![];
+    let mut problem: Option<String> = None;
+    let r = catch(|| {
+        st.with_inner_state(|inner| {
+            if own {
+                inner.insert(Populations::<TagP>::new());
+            }
+            let mut tag = 0u32;
+            for (k, o) in ops.iter().enumerate() {
+                let m: &mut Vec<Pop> = if own { &mut inner_model } else { &mut outer_model };
+                let (got, exp): (String, String) = match o {
+                    0 => {
+                        tag += 1;
+                        inner.populations_mut().push(vec![mk(&(tag, 1))]);
+                        m.insert(0, vec![(tag, 1)]);
+                        (String::new(), String::new())
+                    }
+                    1 => {
+                        let g = inner.populations_mut().try_pop().map(|p| rdp(&p));
+                        let e = if m.is_empty() { None } else { Some(m.remove(0)) };
+                        (format!("{:?}", g), format!("{:?}", e))
+                    }
+                    2 => (format!("{}", inner.populations().len()), format!("{}", m.len())),
+                    3 => (format!("{:?}", inner.populations().try_peek(0).map(rdp)), format!("{:?}", m.first())),
+                    4 => {
+                        let mut pops = inner.populations_mut();
+                        match pops.get_current_mut() {
+                            Some(p) => {
+                                tag += 1;
+                                p.push(mk(&(tag, 2)));
+                                m[0].push((tag, 2));
+                            }
+                            None => {}
+                        }
+                        (String::new(), String::new())
+                    }
+                    _ => {
+                        if !m.is_empty() {
+                            inner.populations_mut().rotate(1);
+                        }
+                        (String::new(), String::new())
+                    }
+                };
+                if got != exp && problem.is_none() {
+                    problem = Some(format!("operation {} (index {}) returned {}, expected {}", o, k, got, exp));
+                }
+            }
+            // what the inner scope sees at the end
+            let seen: Vec<Pop> = {
+                let pops = inner.populations();
+                (0..pops.len()).map(|d| rdp(pops.peek(d))).collect()
+            };
+            let exp = if own { inner_model.clone() } else { outer_model.clone() };
+            if seen != exp && problem.is_none() {
+                problem = Some(format!("the inner scope sees the stack {:?} at the end, expected {:?}", seen, exp));
+            }
+            Ok(())
+        })
+        .map(|_| ())
+    });
+    let ctx = |w: String| format!("inner scope {} a population stack of its own, operations {:?} (0 push, 1 try_pop, 2 len, 3 try_peek(0), 4 current_mut().push, 5 rotate(1)): {}", if own { "with" } else { "without" }, ops, w);
+    let head = format!("C04 scoped-stack inner-scope-{}", if own { "has-own-stack" } else { "shares-outer-stack" });
+    match r {
+        Err(p) => return Some((format!("{} panic", head), ctx(format!("panicked: {}", p)))),
+        Ok(Err(e)) => return Some((format!("{} error", head), ctx(format!("{:#}", e)))),
+        Ok(Ok(())) => {}
+    }
+    if let Some(p) = problem {
+        return Some((format!("{} wrong-stack", head), ctx(p)));
+    }
+    let outer = dump(&st);
+    if outer != outer_model {
+        return Some((format!("{} outer-stack-changed", head), ctx(format!("the outer stack is {:?} afterwards, expected {:?}", outer, outer_model))));
+    }
+    None
+}
+
 pub fn run(rep: &mut Report) {
     rep.alpha("Populations: push (fresh tagged population, sizes 0..S, objective patterns incl. ties), pop, try_pop, current, get_current, current_mut/get_current_mut + edit (push/clear/reverse), peek(d), try_peek(d) for d <= h+1, rotate(n) once and twice for n <= h (+ n = h+1), len, is_empty");
+    rep.alpha("the stack inside an inner scope with / without a stack of its own: all operation sequences of length <= 3 (quick) / 4 (thorough) over push, try_pop, len, try_peek, current_mut edit, rotate; populations with spare capacity (PushRoomy) and shrinking edits");
     rep.alpha("components RotatePopulations(n) for n <= h+1, ClearPopulation, DuplicatePopulation, InterleavePopulations, SplitPopulationByObjectiveValue (populations of >= 2 evaluated individuals)");
     rep.assume("tags are renamed in order of first appearance (no stack operation inspects solutions); objective ranks are part of the key because the split component reads them");
     rep.assume("for rotation only what the statement fixes is required (exactly the top n change, cyclic shift by one, n = 0..height succeed); the documented direction is a separate signature of the same property");
@@ -583,6 +680,24 @@ pub fn run(rep: &mut Report) {
     p.outcome(format!("height:{}", hist.len()));
     rep.push(p);
 
+    // the stack as scoped state
+    let mut p = Part::new("popstack.scoped");
+    for own in [true, false] {
+        for l in 1..=rep.tier.pick(3usize, 4usize) {
+            for seq in crate::engine::util::sequences(6, l) {
+                let ops: Vec<u8> = seq.iter().map(|x| *x as u8).collect();
+                p.transitions += l as u64;
+                p.traces += 1;
+                p.states += 1;
+                if let Some((sg, d)) = check_scoped_stack(own, &ops) {
+                    p.violate(sg, d, json!({"scoped": own, "ops": ops}));
+                }
+            }
+        }
+        p.outcome(format!("own-stack:{}", own));
+    }
+    rep.push(p);
+
     let mut p = Part::new("popstack.history-complete");
     let len = rep.tier.pick(3usize, 4usize);
     p.bound("history_length", len as u64).bound("max_height", 3).bound("max_population_size", 2);
@@ -603,6 +718,7 @@ fn parse_op(v: &Value) -> Result<Op, String> {
     use Op::*;
     Ok(match nm {
         "Push" => Push(a(0), a(1)),
+        "PushRoomy" => PushRoomy(a(0), a(1)),
         "Pop" => Pop,
         "TryPop" => TryPop,
         "Current" => Current,
@@ -625,6 +741,10 @@ fn parse_op(v: &Value) -> Result<Op, String> {
 }
 
 pub fn replay(case: &Value) -> Result<Vec<(String, String)>, String> {
+    if let Some(own) = case["scoped"].as_bool() {
+        let ops: Vec<u8> = case["ops"].as_array().ok_or("no ops")?.iter().map(|x| x.as_u64().unwrap_or(0) as u8).collect();
+        return Ok(check_scoped_stack(own, &ops).into_iter().collect());
+    }
     let h = case["history"].as_array().ok_or("no history")?;
     let ops: Vec<Op> = h.iter().map(parse_op).collect::<Result<_, _>>()?;
     if ops.is_empty() {
